@@ -508,8 +508,14 @@ void Node::schedule_assigned_fetch(const protocol::AnnouncePayload& payload) {
         state.chunk_id = payload.chunk_id;
         state.enqueue_time = now;
         state.attempts = 0;
-    } else if (state.peer_id != payload.peer_id) {
-        state.attempts = 0;
+    } else {
+        if (state.in_flight) {
+            // The request in flight is abandoned: give its slot back to the peer it was sent to.
+            note_dispatch_end(state);
+        }
+        if (state.peer_id != payload.peer_id) {
+            state.attempts = 0;
+        }
     }
 
     state.peer_id = payload.peer_id;
